@@ -185,6 +185,57 @@ def run(prog: Program, rep: Report, tier: str):
         rep.decide(ok, "G9.checkpoint-stores", init, f"store:start_{u}", why, why,
                    line=ia.line(st[0][0]) if st else init.node.lineno, clause="C06.2", nontrivial=False)
 
+    # ---- the checkpoint is complete where it is used ------------------------------------------------------------------------
+    rep.rule("G9.checkpoint-complete-at-use", "whatever __init__ keeps on the sampler besides the checkpoint itself (a store to "
+             "self.<attr> other than self.start_<unit>) is computed from completed checkpoint components: following the "
+             "definitions that reach the stored value backwards - with the checkpoint given through one component, or not at "
+             "all - never arrives at the None of a start_<unit> parameter that was not given")
+    early: Dict[Tuple[int, str], List[str]] = {}
+    n_sinks = 0
+    ck_attrs = {f"self.start_{u}" for u in UNITS}
+    for g in list(UNITS) + [None]:
+        case_ = {is_none(("param", f"start_{w}")): (w != g) for w in UNITS}
+        pa_ = ia.prune(case_)
+        pc_ = pa_.cfg
+        reach_ = pc_.reaching()
+        raw = {f"start_{u}" for u in UNITS if u != g}
+        for n_, var_, val_ in pa_.stores("self."):
+            if var_ in ck_attrs or val_ is None or n_ not in pc_.nodes or not pc_.reachable(pc_.entry, n_):
+                continue
+            n_sinks += 1
+            seen_ = set()
+            work_ = [(n_, x_.id) for x_ in ast.walk(val_) if isinstance(x_, ast.Name) and isinstance(x_.ctx, ast.Load)]
+            hit_ = None
+            while work_ and hit_ is None and len(seen_) < 4000:
+                at_, nm_ = work_.pop()
+                if (at_, nm_) in seen_:
+                    continue
+                seen_.add((at_, nm_))
+                for d_ in reach_.get(at_, {}).get(nm_, set()):
+                    if d_ not in pc_.nodes:
+                        continue
+                    if pc_.nodes[d_].kind == "entry":
+                        if nm_ in raw:
+                            hit_ = nm_
+                        continue
+                    dv_ = pc_.def_value(d_, nm_)
+                    src_ = dv_ if dv_ is not None else pc_.nodes[d_].ast
+                    if src_ is None:
+                        continue
+                    for y_ in ast.walk(src_):
+                        if isinstance(y_, ast.Name) and isinstance(y_.ctx, ast.Load):
+                            work_.append((d_, y_.id))
+            if hit_ is not None:
+                early.setdefault((n_, var_, hit_), []).append(f"start_{g}" if g else "nothing")
+    for (n_, var_, v_), cases_ in sorted(early.items()):
+        rep.bad("G9.checkpoint-complete-at-use", init, f"{var_}<-{v_}",
+                f"{var_} (line {ia.line(n_)}) is computed from {v_} as the caller passed it: when the checkpoint is given as "
+                f"{' / '.join(cases_)} that parameter is still None where the value is computed (before the checkpoint is "
+                f"completed), so the stored value belongs to a run that starts at 0", line=ia.line(n_), clause="C06.2")
+    if not early:
+        rep.ok("G9.checkpoint-complete-at-use", init, "stores", f"{n_sinks} (store, case) pairs outside the checkpoint depend on "
+               "completed components only", clause="C06.2")
+
     # ---- 2. derivation of the checkpoint --------------------------------------------------------------------------------
     rep.rule("G4.derivation-deps", "in the branch that completes a checkpoint given as start_<X>, each derived component "
              "depends (backward slice incl. control dependences) on every geometry input that the true value depends on: "
